@@ -1,4 +1,4 @@
-import BB.Model.Persist
+import BB.Model.PersistWorld
 import BB.Model.Store
 /-!
 # The flat store over the persistence layer
@@ -133,6 +133,12 @@ def allocate (c : FCfg) (f : Full) (size key : Nat) (upload : Bool) : Alloc :=
 def copy (f : Full) (id data : Nat) : Option Full :=
   match f.w.obj? id, f.w.copy id data with
   | some o, some w => some { w := w, bm := BlockMap.unpin f.bm o.abs }
+  | _, _ => none
+
+/-- The unlocked copy of a refresh from the location `(slot, off, size)`. -/
+def refreshCopy (f : Full) (id slot off size : Nat) : Option (Nat × Full) :=
+  match f.w.obj? id, f.w.refreshCopy id slot off size with
+  | some o, some (d, w) => some (d, { w := w, bm := BlockMap.unpin f.bm o.abs })
   | _, _ => none
 
 /-- Region 2: `finalizePut`. -/
